@@ -188,8 +188,8 @@ static uint64_t sentinel(void) {
 static uint64_t g_sentinel_good;   /* digest of (OK, OK, RES_OK, OK, same) */
 
 /* ------------------------------------------------------------------ touching parsed values */
-static const size_t STRSZ[] = {1, 16, 1500};
-#define NSTRSZ 3
+static const size_t STRSZ[] = {1, 16, 400, 1500};
+#define NSTRSZ 4
 /* calls a toString style function with exactly sized heap buffers; the result must be terminated inside */
 #define TOSTR(what, expr) do { int zi_; for (zi_ = 0; zi_ < NSTRSZ; zi_++) { size_t l = STRSZ[zi_]; char *b = (char *)malloc(l), *r_; \
 	memset(b, 'x', l); CALL(); r_ = (expr); \
@@ -1251,7 +1251,7 @@ static void add_ref_seeds(void) {
 static const char *QUICK_SEEDS[] = {
 	"ref:sig.tail3.rfc0", "ref:sig.tail2.rfc1", "ref:aggr-resp.v2", "ref:aggr-resp.v1", "ref:ext-resp.v2", "ref:ext-resp.v1", "ref:aggr-error.v2",
 	"ref:ext-conf.v2", "ref:sig.zero-length-input-hash", "ok-sig-metadata-with-padding.ksig", "rfc3161-sha1-as-input-hash-2017.ksig", "ok_nested-9.tlv",
-	"publications-one-cert-one-publication-record-with-wrong-hash.tlv", "ref:pubfile.large-unknown-record", "ref:pubfile.sha512-publication", "ref:ext-req-wide-integers.v2", "ref:sig.pubref-empty-string", NULL
+	"publications-one-cert-one-publication-record-with-wrong-hash.tlv", "ref:pubfile.large-unknown-record", "ref:pubfile.sha512-publication", "ref:pubfile.long-references", "ref:ext-req-wide-integers.v2", "ref:sig.pubref-empty-string", NULL
 };
 
 static void load_seeds(void) {
@@ -1292,6 +1292,20 @@ static void load_seeds(void) {
 					rtlv_put(&o2, 0x703, 0, 0, rec.p, rec.n, 0);
 					vb_put(&o2, d + off, n - off);
 					add_seed("ref:pubfile.sha512-publication", o2.p, o2.n);
+					{
+						/* and one whose publication record carries three references of 300 characters each (a rendering much longer than a small buffer) */
+						vbuf o3, rec3;
+						char ref[302];
+						int q;
+						vb_init(&o3); vb_init(&rec3);
+						rtlv_put(&rec3, 0x10, 0, 0, pd.p, pd.n, 0);
+						for (q = 0; q < 3; q++) { memset(ref, 'a' + q, 300); ref[300] = 0; rtlv_put(&rec3, 0x09, 0, 0, (const unsigned char *)ref, 301, 0); }
+						vb_put(&o3, d, off);
+						rtlv_put(&o3, 0x703, 0, 0, rec3.p, rec3.n, 0);
+						vb_put(&o3, d + off, n - off);
+						add_seed("ref:pubfile.long-references", o3.p, o3.n);
+						vb_free(&o3); vb_free(&rec3);
+					}
 					vb_free(&o2); vb_free(&pd); vb_free(&rec);
 				}
 			}
